@@ -9,6 +9,7 @@ RULE = ("(1) the matrix of all 33 built-in CSV-library commands x each of their 
         "required argument, undeclared argument, wrong-kind value, missing result, fuzzy/non-fuzzy mismatch, non-data result as "
         "data, missing input file). Observed: exception class/line/names, execute() log and new files at the moment of rejection; "
         "compared with the Coq loader model on the parsed nodes. non-trivial = distinct faulted or kind-confused model")
+RULE += (' Histories: a model that ran is edited through the API (a producer removed) and run again; an input file deleted between two runs; an add_command that is rejected, caught and followed by run(); faulted models write into folders that do not exist (folders are part of the file-system snapshot).')
 TRUSTED = ["drivers/loader_driver.py: fault injector with its expected error class per fault (written from the property statement)"]
 ASSUMPTIONS = ["CSV library set; argument names unique within a command; ASCII text"]
 PROP = "C12"
